@@ -1,7 +1,8 @@
 (* Property C07 — override changes only the expectations of records that did not pass.
    Statements only: record level, and (C07_file_frame_and_halt) the file-level driver over the
    flattened record list of a file with its includes.  C05 covers the formatting of unchanged records. *)
-From SLT Require Import JudgeSpec Runner Update UpdateSpec UpdateProofs UpdateFile1 UpdateFile.
+From SLT Require Import Parser FormatSpec FormatProofs JudgeSpec Runner Update UpdateSpec UpdateProofs UpdateFile1 UpdateFile
+  UpdateText UpdateText7 UpdateTextFrame.
 
 Theorem C07_frame :
   forall re sep strict r o r', update_record re sep strict r o = Some r' -> same_but_expectation r r'.
@@ -61,3 +62,34 @@ Theorem C07_file_frame_and_halt :
         nth i rs' d = nth i rs d).
 Proof. exact update_after_halt_unchanged. Qed.
 Print Assumptions C07_file_frame_and_halt.
+
+(* TEXT LEVEL (single file, from the content before the update to the content after it): the written file parses to a
+   script whose records correspond one to one (blank lines and comment merging aside) to the records of the original
+   file; each is equal to its original or differs in the expectation only; a record the updater left alone
+   (update_record = None: it passed, was skipped, or its command failed) is EQUAL; a rewritten one is the re-read updated
+   record; and everything from the first halt on is equal. *)
+Theorem C07_text_frame :
+  forall (col : N -> option N) (rv : str -> bool) (rm : str -> str -> bool) (sep : str) (strict : bool)
+         (substitute : bool -> list (str * str) -> str -> subres) (sc : script),
+    col_stable col -> escape_valid rv ->
+    forall (file : str) (upper : option loc) (main : str) (s : str) (rs : list record)
+           (st : rstate) (w : world) (written : list (str * list N)) (ev : list event) (kn : list N),
+      no_trailing_cr s ->
+      parse col rv file upper s = POk rs ->
+      update_loop rm sep strict substitute sc false rs [mkItem main []] false st w [] [] []
+        = UOk written ev kn ->
+      Forall2 (out_repr col sep strict) rs (updated_outputs rm sep strict substitute sc rs st w) ->
+      dangling_end (updated_records rm sep strict substitute sc rs st w) = false ->
+      let outs := updated_outputs rm sep strict substitute sc rs st w in
+      exists text R,
+        written = [(main, utf8 text)] /\
+        parse col rv file upper text = POk R /\
+        map fst (meaning_o rs outs) = meaning rs /\
+        Forall2 (text_frame_rel rm sep strict) (meaning_o rs outs) (meaning R) /\
+        Forall2 (fun a b => b = a \/ same_but_expectation a b) (meaning rs) (meaning R) /\
+        (forall Mpre Mpost,
+            meaning rs = Mpre ++ RHalt no_loc :: Mpost ->
+            Forall (fun a => rkind_of a <> KHalt) Mpre ->
+            exists Mpre', meaning R = Mpre' ++ RHalt no_loc :: Mpost /\ length Mpre' = length Mpre).
+Proof. exact update_text_frame_source. Qed.
+Print Assumptions C07_text_frame.
